@@ -11,6 +11,7 @@ from __future__ import annotations
 import re
 
 import common
+import lateinit
 import cxx
 from common import Ctx
 
@@ -323,6 +324,7 @@ def run(ctx: Ctx) -> int:
             ctx.tie_diff("tie assemble (Lang.Assemble.run vs compiled sketch: order of use/statement/poll events)", replay, m, impl)
         monitor(ctx, res.trace, devs, src, n)
     break_guard(ctx)
+    lateinit.check(ctx, "split:prologue-order", 40, 400)
     ctx.cov["rule"] = ("random device sets (1-5 devices of 9 kinds on distinct pins + serial) declared before the main loop or (hoistable kinds) at the top of its body, "
                        "uses and marker statements in both phases, N in {0,1,3}; every sketch compiled and run; plus `break` under random nestings of if/elif/else/try/except/for/while/for-else in the main loop; distinct = distinct scripts")
     return ctx.finish(TRUSTED, search=None)
